@@ -403,3 +403,104 @@ def _r21(ctx, scope, floor):
                 ctx.bad(cid, mod.loc(fn), f"parameter `{a}` of {fq} is never read: the caller's value is silently ignored (it used to be forwarded, or the option is accepted without effect)")
     ctx.ok("parameters read in their function", "", f"{n} parameters examined")
     ctx.floor("parameters examined", n, floor)
+
+
+# parameters that may be ignored when two sources are compared for "same parent": they select columns / carry a
+# cache, they do not change which rows are in which partition
+R02C_IGNORABLE = {"columns", "_series", "_dataset_info_cache"}
+
+
+def _ndim_only(test, target):
+    txt = ast.unparse(test).replace(" ", "")
+    tn = ast.unparse(target)
+    return txt in (f"{tn}.ndim>0", f"{tn}.ndim!=0", f"{tn}.ndim", f"{tn}.ndim>=1", f"not{tn}.ndim==0")
+
+
+@rule(
+    "R02c",
+    ["C02", "C14"],
+    """CO-ALIGNMENT IS JUDGED OVER ALL ANCESTORS: are_co_aligned is the single decision between the plain partitionwise class
+    and its aligning sibling (and what Fused groups rely on). Its walk must follow EVERY dependency of a partitionwise
+    node (an unfiltered `.dependencies()`), must count every non-partitionwise, non-scalar node as an ancestor, may
+    ignore only column-selection / cache parameters when comparing sources (filters, partition selections, paths
+    distinguish sources), and answers True only for at most one distinct ancestor.""",
+)
+def r02c(ctx):
+    model = ctx.model
+    mod, fn = model.func("_expr", "are_co_aligned")
+    defs = flow.Defs(fn)
+    ext = []
+    for pt in flow.walk(fn):
+        if not isinstance(pt.stmt, ast.Expr):
+            continue
+        c = pt.stmt.value
+        if isinstance(c, ast.Call) and isinstance(c.func, ast.Attribute) and c.func.attr in ("extend", "append") and dotted(c.func.value) == "stack" and pt.loops:
+            ext.append((pt, c))
+    if not ext:
+        raise AnalysisError("anchor vanished: stack.extend(...) in are_co_aligned")
+    for pt, c in ext:
+        arg = c.args[0]
+        val = arg
+        if isinstance(arg, ast.Name):
+            ds = defs.reaching(arg.id, pt.stmt)
+            val = ds[0].value if len(ds) == 1 else None
+        whole = isinstance(val, ast.Call) and isinstance(val.func, ast.Attribute) and val.func.attr == "dependencies" and not val.args
+        if not whole and val is not None:
+            # list(e.dependencies()) / [*e.dependencies()] / unfiltered comprehension
+            t = val
+            if isinstance(t, ast.Call) and dotted(t.func) in ("list", "tuple") and len(t.args) == 1:
+                t = t.args[0]
+            # a filter on `.ndim` only repeats the scalar arm of the walk (scalars are skipped anyway)
+            if isinstance(t, (ast.ListComp, ast.GeneratorExp)) and len(t.generators) == 1 and all(_ndim_only(i, t.generators[0].target) for i in t.generators[0].ifs) and isinstance(t.elt, ast.Name) and ast.unparse(t.elt) == ast.unparse(t.generators[0].target):
+                t = t.generators[0].iter
+            if isinstance(t, ast.Name):
+                ds = defs.reaching(t.id, pt.stmt)
+                t = ds[0].value if len(ds) == 1 and ds[0].value is not None else t
+            whole = isinstance(t, ast.Call) and isinstance(t.func, ast.Attribute) and t.func.attr == "dependencies" and not t.args
+        (ctx.ok if whole else ctx.bad)(
+            "_expr.are_co_aligned:walk",
+            mod.loc(c),
+            "the walk follows every dependency" if whole else f"`{ast.unparse(c)[:140]}` follows only some of a node's dependencies: an input that is left out is never compared, so differently partitioned inputs are declared co-aligned",
+        )
+    # fall-through arm: anything that is not IO / scalar / partitionwise / delayed is an ancestor
+    chain = [n for n in ast.walk(fn) if isinstance(n, ast.If) and "isinstance(e, IO)" in ast.unparse(n.test)]
+    if not chain:
+        raise AnalysisError("anchor vanished: isinstance(e, IO) chain in are_co_aligned")
+    last = chain[0]
+    while len(last.orelse) == 1 and isinstance(last.orelse[0], ast.If):
+        last = last.orelse[0]
+    else_ok = any(isinstance(s, ast.Expr) and "ancestors.append(e)" in ast.unparse(s) for s in last.orelse)
+    io_ok = any(isinstance(s, ast.Expr) and "ancestors.append(e)" in ast.unparse(s) for s in chain[0].body)
+    (ctx.ok if else_ok and io_ok else ctx.bad)(
+        "_expr.are_co_aligned:ancestors",
+        mod.loc(chain[0]),
+        "sources and every other non-partitionwise node are ancestors" if else_ok and io_ok else "a source / an unclassified node is no longer recorded as an ancestor: inputs that come from it are never found to differ",
+    )
+    # identity of an ancestor
+    toks = [n for n in ast.walk(fn) if isinstance(n, ast.Call) and dotted(n.func) == "_tokenize_partial"]
+    for t in toks:
+        ign = set()
+        if len(t.args) > 1:
+            v = model.resolve_expr(mod, t.args[1]) if hasattr(model, "resolve_expr") else None
+            if isinstance(t.args[1], (ast.List, ast.Tuple, ast.Set)):
+                ign = {e.value for e in t.args[1].elts if isinstance(e, ast.Constant)}
+                if len(ign) != len(t.args[1].elts):
+                    ign.add("<non-literal>")
+            else:
+                ign = {"<non-literal>"}
+        extra = ign - R02C_IGNORABLE
+        (ctx.bad if extra else ctx.ok)(
+            "_expr.are_co_aligned:identity",
+            mod.loc(t),
+            f"sources are compared ignoring {sorted(extra)}: reads that differ there (other rows / partitions) count as the same parent" if extra else f"sources compared up to {sorted(ign)}",
+        )
+    # verdict
+    rets = [r for r in ast.walk(fn) if isinstance(r, ast.Return) and r.value is not None]
+    vd = [ast.unparse(r.value).replace(" ", "") for r in rets]
+    good = bool(vd) and all(v in ("len(unique_ancestors)<=1", "len(unique_ancestors)<2") for v in vd)
+    (ctx.ok if good else ctx.bad)(
+        "_expr.are_co_aligned:verdict",
+        mod.loc(rets[0]) if rets else mod.loc(fn),
+        "co-aligned iff at most one distinct ancestor" if good else f"verdict is `{vd}`: more than one distinct ancestor may not count as co-aligned",
+    )
+    ctx.floor("are_co_aligned obligations", len(ext) + len(toks) + 2, 4)
